@@ -89,3 +89,17 @@ Proof.
   destruct (tstate_eqb (t_state x) RUNNING && negb (t_mayblock x)); [|discriminate H].
   inversion H; subst. cbn. rewrite Nat.eqb_refl. auto.
 Qed.
+
+(* the consistency invariant of ProgressInv holds in every reachable state of the composed system *)
+Theorem reachable_kinv_l ns nw ac chunk prog es c :
+  0 < ns -> 0 < nw -> crun (cinit ns nw ac chunk prog) es = Some c -> kinv c.(ck).
+Proof.
+  intros Hs Hw H. destruct (crun_run _ _ _ H) as (tr & M & R).
+  eapply kinv_run_my; [exact (kinv_init ns nw ac Hs Hw)|exact M|exact R].
+Qed.
+
+Theorem reachable_pin_inv_l ns nw ac chunk prog es c :
+  crun (cinit ns nw ac chunk prog) es = Some c -> pin_inv c.(ck).
+Proof.
+  intros H. destruct (crun_run _ _ _ H) as (tr & M & R). eapply pin_inv_run; [apply pin_inv_init|exact R].
+Qed.
